@@ -484,6 +484,7 @@ func (w *VerifHSWorld) AllocApplicable(id uint64) bool {
 func (w *VerifHSWorld) Alloc(id uint64, script []uint32) []uint32 {
 	hh := w.hh[id]
 	a := hh.hostinfo.vpnAddrs[0]
+	hh.counter = 0 // this component does not model the retry counter (C32 does): never run into the timeout branch here
 	return w.withRand(script, func() { w.hsm.handleOutbound(a, false) })
 }
 
